@@ -101,7 +101,8 @@ def gen_query_tables():
     v += ["", "Definition all_qdialects : list qdialect := [%s]." % "; ".join("qd_" + d for d in C04.DIALECTS)]
     write_if_changed(os.path.join(GEN, "QueryTables.v"), "\n".join(v) + "\n")
     return {"flags": flags, "flag_probe_mismatch": mism, "reserved_col": t["reserved_for_column_alias"],
-            "reserved_tab": t["reserved_for_table_alias"]}
+            "reserved_tab": t["reserved_for_table_alias"],
+            "named_arg_eq": {d: bool(t["dialects"][d].get("named_arg_eq")) for d in C04.DIALECTS}}
 
 
 # ------------------------------------------------------------------ case generation
@@ -406,7 +407,8 @@ def query_cases(run, T):
                   "VALUES (1) UNION ALL SELECT x2 EXCEPT TABLE x3", "SELECT x1 FROM (VALUES (1), (2)) AS x3", "SELECT x1 FROM (VALUES (1)) x3 JOIN (VALUES (2)) AS x4 ON x5",
                   "SELECT x1 FROM VALUES (1) AS x3", "SELECT x1 FROM VALUES", "SELECT x1 FROM VALUES x3", "SELECT x1 FROM VALUES JOIN x3", "SELECT x1 FROM (VALUES JOIN x3)",
                   "WITH x1 AS (VALUES (1)) SELECT x2", "WITH x1 (x2) AS (VALUES (1)) TABLE x1", "WITH x1 AS (TABLE x2) VALUES (1)", "SELECT (VALUES (1))", "SELECT EXISTS (VALUES (1))",
-                  "SELECT x1 IN (VALUES (1))", "VALUES ((SELECT x1)), (EXISTS (SELECT x2))", "VALUES (x1 IN (SELECT x2))", "(VALUES (1))", "((VALUES (1)) UNION (TABLE x1))",
+                  "SELECT x1 IN (VALUES (1))", "VALUES ((SELECT x1)), (EXISTS (SELECT x2))", "SELECT x1 WHERE (VALUES (x1 == x2), (x3))", "SELECT (SELECT x1 FROM x2, SELECT)",
+                  "SELECT (SELECT x1 FROM x2, x3,) FROM x4", "SELECT x5 FROM (SELECT x1 FROM x2, x3,)", "VALUES (x1 IN (SELECT x2))", "(VALUES (1))", "((VALUES (1)) UNION (TABLE x1))",
                   "VALUES (1) AS x2", "VALUES (1) x2", "VALUES (x1) FROM x2", "VALUES ROW(1)", "VALUES (1) LIMIT 1 OFFSET 2",
                   "TABLE x1", "TABLE x1 ORDER BY x2", "TABLE", "TABLE 1", "TABLE (x1)", "TABLE x1 x2", "TABLE x1 AS x2", "TABLE x1.x2", "TABLE x1 UNION TABLE x2",
                   "TABLE SELECT", "TABLE TABLE", "TABLE VALUES", "TABLE x1, x2", "SELECT x1 FROM TABLE", "SELECT x1 FROM TABLE x2", "SELECT x1 FROM TABLE (x2)",
@@ -778,6 +780,28 @@ def encode_case(T, c, r):
     return "(qd_%s, %s, %s)" % (d, ts, impl)
 
 
+def fn_arg_eq(sql):
+    """`name ( .. == ..` : a function call (VALUES in operand position counts) with `==` in an argument."""
+    return re.search(r"\b[A-Za-z_][A-Za-z_0-9]*\s*\((?:[^()]|\([^()]*\))*==", sql) is not None
+
+
+def nested_list_end(sql, reserved):
+    """A comma inside parentheses followed by `)` or by a word of RESERVED_FOR_COLUMN_ALIAS: where
+    options.trailing_commas is on, the list ends there."""
+    depth = 0
+    toks = re.findall(r"'[^']*'|[A-Za-z_][A-Za-z_0-9]*|[(),]|\S", sql)
+    for i, t in enumerate(toks):
+        if t == "(":
+            depth += 1
+        elif t == ")":
+            depth -= 1
+        elif t == "," and depth > 0 and i + 1 < len(toks):
+            n = toks[i + 1]
+            if n == ")" or n.upper() in reserved:
+                return True
+    return False
+
+
 CHECK_FN = "(fun c => match c with (d, ts, i) => qcase_full d ts i end)"
 CASE_TYPE = "(qdialect * list qtok * qires)"
 BITS = {1: "model-parser-vs-parse_query", 2: "qtoks-vs-printed-tokens", 4: "model-roundtrip", 16: "qwf-of-accepted-tree"}
@@ -805,8 +829,13 @@ def check_query(run, prop="C01", tables=None):
              "streams": {}}
     viol = {}
 
+    reserved_col = set(tables["reserved_col"])
+    # dialects in which only the projection may end in a comma: parse_projection switches
+    # options.trailing_commas on for the whole projection, subqueries of its items included
+    proj_only = {d for d, fl in tables["flags"].items() if fl["proj_trailing"] and not fl["trailing"]}
+
     def report(key, rep, **kw):
-        full = "query:" + key
+        full = key if key.startswith("dml:") else "query:" + key
         if full in known:
             run.known(full, known[full])
             stats.setdefault("by_key", {})
@@ -830,6 +859,10 @@ def check_query(run, prop="C01", tables=None):
                 stats["impl_roundtrip_fail"] += 1
                 # Display never prints the ALL quantifier: `SELECT ALL` in the printed text is an identifier spelled ALL
                 key = "select-all-identifier" if re.search(r"\bSELECT ALL\b", rs["text"]) else "impl-roundtrip"
+                if key == "impl-roundtrip" and tables["named_arg_eq"].get(c["dialect"]) and fn_arg_eq(c["sql"]):
+                    # `f(a == b)` prints `f(a = b)`, a named argument where `=` introduces one (DuckDB); VALUES in
+                    # operand position is such a call
+                    key = "dml:function-argument-eq-read-as-named-argument"
                 report(key, {"what": "an accepted query does not survive parse -> print -> parse", "dialect": c["dialect"],
                                           "input": c["sql"], "printed": rs["text"],
                                           "reparse": {k: again.get(k) for k in ("same", "err", "tokerr", "panic", "text2", "rest")}})
@@ -852,6 +885,13 @@ def check_query(run, prop="C01", tables=None):
         stats["streams"][c["stream"]]["compared"] += 1
         for b, name in BITS.items():
             if cd & b:
+                if b == 1 and c["dialect"] in proj_only and nested_list_end(c["sql"], reserved_col):
+                    # the implementation applies the trailing-comma end rule to the lists of a subquery inside a
+                    # projection item (and only there); the model's rule is static
+                    stats["projection_trailing_scope"] = stats.get("projection_trailing_scope", 0) + 1
+                    report("projection-trailing-comma-scope", {"what": "options.trailing_commas leaks from parse_projection into the subqueries of its items",
+                                                               "dialect": c["dialect"], "input": c["sql"], "observed": r["result"].get("text") or r["result"]})
+                    break
                 cnt[name] += 1
                 report("model:" + name, {"what": "query-core model check failed: " + name, "unchecked": "correspondence QueryCore (" + name + ")",
                                          "dialect": c["dialect"], "input": c["sql"], "observed": r["result"].get("text") or r["result"],
